@@ -91,6 +91,23 @@ fn draw_len(rng: &mut Prng) -> usize {
     }
 }
 
+/// Length drawn with the (approximate) stream position in view: one quarter of the reads end
+/// exactly on, or one byte around, a refill boundary after draining a partly used buffer and
+/// zero to three whole blocks.
+fn draw_len_at(rng: &mut Prng, pos: usize) -> usize {
+    if rng.chance(1, 4) {
+        let to_boundary = (BUF - pos % BUF) % BUF;
+        let len = to_boundary + BUF * rng.range(0, 3);
+        match rng.below(6) {
+            0 => len + 1,
+            1 => len.saturating_sub(1),
+            _ => len,
+        }
+    } else {
+        draw_len(rng)
+    }
+}
+
 struct G1 {
     seed: [u8; 64],
     ops: Vec<GOp>,
@@ -1063,7 +1080,58 @@ fn run_stats(moduli: &[u64], seed: u64) -> Vec<(String, String, String)> {
             bad.push(("samples/uniform/distribution".into(), "distribution".into(), format!("uniform samples modulo {} over {} draws: chi2 = {:.1} with {} dof (threshold {:.1})", q, tot, x, dof, chi2_threshold(dof, z))));
         }
     }
+    position_stats(moduli, seed, &mut bad);
     bad
+}
+
+/// The pooled tests above cannot see a defect that sits at a few fixed coefficient positions
+/// (e.g. the coefficient that straddles a buffer boundary of a block-wise sampler). Here every
+/// position of a large ring gets its own test: the sum over `ROUNDS` polynomials of the sampled
+/// value at position i has mean 0 (or (q-1)/2q per draw for the uniform sampler, values scaled by 1/q) and a known
+/// variance; |z| > 7.5 at any position is reported (p < 1e-13 per position under the Gaussian
+/// approximation; the summands are bounded, so the true tails are lighter).
+fn position_stats(moduli: &[u64], seed: u64, bad: &mut Vec<(String, String, String)>) {
+    const ROUNDS: usize = 48;
+    let n = [1024usize, 2048, 4096][(seed % 3) as usize];
+    let parms = sampler_parms(moduli, n);
+    let k = moduli.len();
+    let q0 = moduli[0];
+    // exact integer arithmetic before the conversion: moduli go up to 60 bits, beyond f64's 53
+    let signed = |v: u64| -> f64 { if v > q0 / 2 { -((q0 - v) as f64) } else { v as f64 } };
+    let mut g = BlakeRNG::from_seed(PRNGSeed(Prng::new(seed ^ 0x706f_7369_7469_6f6e).bytes64()));
+    let mut dest = vec![0u64; n * k];
+    let zmax = 7.5f64;
+    let r = ROUNDS as f64;
+    let qf = q0 as f64;
+    let cases: [(&str, f64, f64); 3] = [("ternary", 0.0, 2.0 / 3.0), ("centered_binomial", 0.0, 10.5), ("uniform", (qf - 1.0) / (2.0 * qf), (1.0 - 1.0 / (qf * qf)) / 12.0)];
+    for (name, mean, var) in cases.iter() {
+        let mut sums = vec![0f64; n];
+        for _ in 0..ROUNDS {
+            match *name {
+                "ternary" => sample::ternary(&mut g, &parms, &mut dest),
+                "centered_binomial" => sample::centered_binomial(&mut g, &parms, &mut dest),
+                _ => sample::uniform(&mut g, &parms, &mut dest),
+            }
+            for i in 0..n {
+                sums[i] += if *name == "uniform" { dest[i] as f64 / qf } else { signed(dest[i]) };
+            }
+        }
+        let sd = (r * var).sqrt();
+        let mut worst = (0usize, 0f64);
+        for i in 0..n {
+            let z = (sums[i] - r * mean) / sd;
+            if z.abs() > worst.1.abs() {
+                worst = (i, z);
+            }
+        }
+        if worst.1.abs() > zmax {
+            bad.push((
+                format!("samples/{}/position-bias", name),
+                "position-bias".into(),
+                format!("{} sampler, ring degree {}, first modulus {}: over {} polynomials the values at coefficient position {} have mean {:.3} (specified {:.3}), z = {:.1} (threshold {})", name, n, q0, ROUNDS, worst.0, sums[worst.0] / r, mean, worst.1, zmax),
+            ));
+        }
+    }
 }
 
 /// Moduli next to powers of two (2^k + 1, 2^k - 1, 2^k + 3 ...): rejection samplers and masks slip there.
@@ -1128,17 +1196,24 @@ fn one_run(i: usize, run_seed: u64, tier: Tier) -> RunOut {
             // generator history
             let nops = rng.range(1, 24);
             let fill_only = rng.chance(2, 3);
+            let mut pos = 0usize;
             let ops: Vec<GOp> = (0..nops)
                 .map(|_| {
-                    if fill_only {
-                        GOp::Fill(draw_len(&mut rng))
+                    let op = if fill_only {
+                        GOp::Fill(draw_len_at(&mut rng, pos))
                     } else {
                         match rng.below(4) {
                             0 => GOp::U32,
                             1 => GOp::U64,
-                            _ => GOp::Fill(draw_len(&mut rng)),
+                            _ => GOp::Fill(draw_len_at(&mut rng, pos)),
                         }
-                    }
+                    };
+                    pos += match op {
+                        GOp::Fill(l) => l,
+                        GOp::U32 => 4,
+                        GOp::U64 => 8,
+                    };
+                    op
                 })
                 .collect();
             let g = G1 { seed: rng.bytes64(), ops };
